@@ -110,6 +110,35 @@ Space     N in {1,2,3,5,8} paths  x  ALL sequences of terminal spot values over 
           Caller's arrays (every pricing of every sub): the strikes of the product and of the controls and the given prices are
           copied before Engine.price and compared after it (`C07:inputs:argument-array-modified-by-pricing:<which>`).
           Accumulation (both tiers): fixed scripts of 257 and 1000 paths, payoff v2, controls none / 2a, 1 and 3 processes.
+          Long scripts (both tiers; beyond the row-count thresholds of the statistics helpers): 65536 + 1 and 65536 + 4465 =
+          70001 paths (thorough also 32769, 65536, 131073), a fixed non-periodic script over A4, single process, payoff v2 with
+          controls 2a and payoff s without controls; complete oracle (rows, raw price / error, regression adjustment against
+          math.fsum references); one run each (no determinism re-run). Key label `at-most-65536-paths` /
+          `more-than-65536-paths:<multiple-of-65536 | not-a-multiple-of-65536>`.
+          Ragged time grids (both tiers; label `ragged-grids`): every path brings its OWN dates, as the jump-adapted grids of
+          products with stochastic dates do - same number of dates and same end points as its neighbours, other interior dates.
+          A ragged letter is (grid, spots at the dates of the grid after the first), the path starts at spot 1; grids
+          q = (0, 1/4, 1), h = (0, 1/2, 1), t = (0, 3/4, 1), qh, ht, qt (four dates), e = (0, 1). The deterministic part of the
+          scripted process is x0 + drift t with x0 = 0.5, drift 0.75 (non-zero at 0, time dependent; the other cases use the line
+          0.25 t). Payoffs that read the interior dates - the four barriers, calls on the Asian underlying (scalar strike `as`,
+          two strikes `av2`; the library's own definition: sum of spot(t_i)(t_i - t_{i-1}) / T) - next to the call on the spot;
+          the reference values every path on its own dates, path by path. Enumerated: alphabet R27 = {q, h, t} x B9, ALL sequences
+          for N <= 2 (thorough: N = 3 for as / b-uo / b-di), controls none / 1a, spot statistics on / off, identity (log: controls
+          1a; thorough both). Fixed ragged scripts over all seven grids (7, 13, 33 paths; neighbours of equal length are different
+          grids; lengths 2, 3, 4 alternate): payoffs as / av2 / b-uo / b-di (thorough: all), controls none / 2a, one process in both
+          representations and the pool branch with 2 and 3 workers. History kind "ragged" (f): ONE engine priced twice on ragged
+          scripts (the k-th pricing starts the cycle of grids at position k), operations plain / other / deepcopy / fork / dill
+          (thorough: all copies), identity and log, all pairs (N1, N2), same payoff, and the payoff changed between the pricings
+          (as / b-uo / s, same ControlVariates object).
+          Signs and conditioning (both tiers): the product is a forward (`f`, payoff of both signs) or a strip of puts (`pv2`),
+          (notional, df) in {(2.5, .9), (-2.5, .9), (2.5, 1.0625), (-1, 1.0625)} (short positions - the controls then have the
+          negative notional too - and discount factors above 1) for payoffs f / pv2 / s / v2, controls none / 1a / 2a, N <= 3 all
+          A3 sequences, N = 5 the 27 sequences (thorough 243); the narrow alphabet N3 = 1024 + (0, 2^-10, 2^-9) (|mean| / standard
+          deviation about 1e6), payoffs s / v2, controls none / 1a, N in {2, 3, 5}: the raw error must agree to 1e-7 of ITSELF
+          (a two-pass standard deviation is accurate to eps |mean| / std, a one-pass one only to eps (mean / std)^2).
+          Second public routes (every pricing): price(True) / price(False) / mc_stddev(True) / mc_stddev(False) (flag given
+          positionally) and get_mean() / get_mean(no_control_variates=True) must equal the usual keyword calls
+          (`C07:routes:<route>:differs-from-the-keyword-form`); a missing get_mean is not an alarm.
           quick = the full lattice for N <= 5 on A3 (and LOG for N <= 3), A4 for N <= 3 in full and N = 5 on the sub-lattice
           notional 2.5 / df 0.9 / spot on, N = 8 on that sub-lattice for payoff s, v2 and controls none, 1a, 2a;
           thorough = everything (N = 8 and A4 with N = 5 on the full lattice).
@@ -143,7 +172,8 @@ Findings on the tree this module was built against (reproducers and proposed pat
   ...:cv:variance:adjusted-sample-variance-exceeds-raw:rank-deficient:*    inverse of a numerically singular Sigma_X (controls
                                                                            collinear on the sample) when inv() does not raise
 
-Outside the statement / alphabet (not asserted): histories with path-dependent (barrier) payoffs or with a change of the
+Outside the statement / alphabet (not asserted): histories with path-dependent payoffs on the COMMON grid (the ragged
+histories (f) carry the barrier and Asian payoffs) or with a change of the
 process / representation on one engine (the sub "mixed" re-uses product and controls across representations with fresh
 engines); direct calls of Engine.initialisation; mc_stddev for N = 1 (the unbiased standard deviation does not exist);
 which coefficient is taken when the controls' sample covariance is singular; controls whose variance is below the
@@ -151,9 +181,11 @@ library's absolute 1e-12 threshold although the matrix is invertible (needs payo
 alphabet; mentioned in the report); get_variance(); antithetic sampling (raises NotImplementedError); the random streams of
 the worker processes (C08); mc_paths = 0 (mean of an empty sample); strike / price arrays modified by the CALLER after the
 construction (Vanilla, Forward and ControlVariates keep a reference to what they are given: public attributes, re-assignable,
-the statement promises nothing); exact ties spot = barrier (whether touching is crossing is the payoff's definition, C17).
+the statement promises nothing); exact ties spot = barrier (whether touching is crossing is the payoff's definition, C17);
+the definition of the Asian average itself (the reference takes the library's documented time-weighted sum over the dates of
+the path, C17's subject); long scripts in the pool branch (the statistics helpers do not know the route the rows came by).
 Tolerances: rows rtol 1e-12 (same arithmetic); means / errors / adjusted values |x-y| <= 1e-9*scale + 1e-12*scale with
-scale = max(notional*df, largest |sample|); variance inequality slack 1e-10*scale^2 (rounding of the adjusted rows with
+scale = max(|notional|*df, largest |sample|) - for the raw error min(1e-9*scale, 1e-7*reference error) + 1e-12*scale; variance inequality slack 1e-10*scale^2 (rounding of the adjusted rows with
 cond(Sigma_X) <= 1e6; a wrong coefficient changes the variance at order scale^2).
 """
 from __future__ import annotations
@@ -176,7 +208,9 @@ RULE = (
     "(configuration chain, operation menu, ordered tuples of path numbers from {1,2,3,5}) x every A3 sequence of the last "
     "pricing in the stated range, every pricing on the ONE re-used engine judged by the same reference and every earlier "
     "result object re-read; sub 'pool': complete product of (nb_of_processes in {2,3,None}, configuration lattice, N) x every A3 "
-    "sequence in the stated range plus the stated fixed scripts; argument forms: every listed form x its configurations x the "
+    "sequence in the stated range plus the stated fixed scripts; ragged grids: complete product of (payoff, controls, spot "
+    "statistics, representation) x every sequence over R27 for N <= 2 plus the stated fixed ragged scripts and histories; long "
+    "scripts of 65536 + k paths; signs / narrow alphabet: the stated lattice x every sequence; argument forms: every listed form x its configurations x the "
     "same sequences; a case (block of consecutive "
     "sequences of one configuration) is non-trivial when at least one of its runs had two different terminal values; "
     "distinct = distinct case dict"
@@ -281,6 +315,8 @@ def cases(tier):
             if sub_lattice(c) or (c["notional"] == 1.0 and c["df"] == 1.0 and c["spot"] == 0):
                 for opt in ({"seed": 7}, {"vr": 1}, {"nodensity": 1}, {"seed": 7, "vr": 1, "nodensity": 1}):
                     out.append(dict(c, sub="sweep", alphabet="A3", rep="identity", N=n, lo=0, hi=3 ** n, **opt))
+    out.extend(_ragged_cases(thorough))
+    out.extend(_signed_and_narrow_cases(thorough))
     out.extend(_pool_cases(thorough, confs, sub_lattice))
     out.extend(_forms_cases(thorough))
     out.extend(_history_cases(thorough))
@@ -289,6 +325,66 @@ def cases(tier):
             continue
         for lo, hi in _blocks(8, 3):
             out.append(dict(c, sub="sweep", alphabet="A3", rep="identity", N=8, lo=lo, hi=hi))
+    return out
+
+
+RAGGED_SCRIPT_NS = (7, 13, 33)  # fixed ragged scripts (grids of 2, 3 and 4 dates; the cycle of grids has length 10)
+LONG_SCRIPT_NS = (65537, 70001)  # one path / 4465 paths beyond 65536 rows
+LONG_SCRIPT_NS_THOROUGH = (32769, 65536, 131073)
+
+
+def _ragged_cases(thorough):
+    """Ragged time grids: every path on its own dates (same number of dates and same end points as its neighbours, other
+    interior dates), a deterministic part x0 + drift t with x0 = 0.5 and drift 0.75, and payoffs that read the interior
+    dates (the four barriers, calls on the Asian underlying) next to one that does not (call on the spot)."""
+    out = []
+    base = {"sub": "sweep", "notional": 2.5, "df": 0.9, "alphabet": "R27", "det": list(U.RAGGED_DET)}
+    payoffs = U.BARRIER_KINDS + U.ASIAN_KINDS + ("s",)
+    for n in (1, 2):  # all sequences over the 27 letters (3 grids x 3 interior spots x 3 terminal spots)
+        for rep in ("identity", "log"):
+            for payoff in payoffs:
+                for cv in ("none", "1a"):
+                    if rep == "log" and cv == "none" and not thorough:
+                        continue
+                    for spot in (0, 1):
+                        for lo, hi in _blocks(n, 27):
+                            out.append(dict(base, payoff=payoff, cv=cv, spot=spot, rep=rep, N=n, lo=lo, hi=hi))
+    if thorough:
+        for payoff in ("as", "b-uo", "b-di"):
+            for lo, hi in _blocks(3, 27):
+                out.append(dict(base, payoff=payoff, cv="none", spot=1, rep="identity", N=3, lo=lo, hi=hi))
+    # fixed ragged scripts over all seven grids, single process and the pool branch
+    for n in RAGGED_SCRIPT_NS:
+        for payoff in (payoffs if thorough else ("as", "av2", "b-uo", "b-di")):
+            for cv in ("none", "2a"):
+                for procs, rep in ((1, "identity"), (1, "log"), (2, "identity"), (3, "identity")) + (((0, "identity"), (3, "log")) if thorough else ()):
+                    c = dict(base, sub="pool" if procs != 1 else "sweep", payoff=payoff, cv=cv, spot=1, rep=rep, script="ragged", N=n, lo=0, hi=1)
+                    out.append(dict(c, procs=procs) if procs != 1 else c)
+    return out
+
+
+SIGNED = ((2.5, 0.9), (-2.5, 0.9), (2.5, 1.0625), (-1.0, 1.0625))  # (notional, discount factor): short positions, negative rates
+
+
+def _signed_and_narrow_cases(thorough):
+    """Payoffs of both signs (a forward as the product, puts), negative notionals (of the product and of the controls) and
+    discount factors above 1; and the narrow alphabet N3 (|mean| / standard deviation about 1e6)."""
+    out = []
+    for n in (1, 2, 3, 5):
+        for payoff in ("f", "pv2", "s", "v2"):
+            for cv in ("none", "1a", "2a"):
+                for nt, df in SIGNED:
+                    if (nt, df) == (2.5, 0.9) and payoff in ("s", "v2"):
+                        continue  # in the main lattice
+                    lo, hi = (0, 3 ** n) if (n < 5 or thorough) else (54, 81)
+                    out.append({"sub": "sweep", "payoff": payoff, "cv": cv, "notional": nt, "df": df, "spot": 1, "alphabet": "A3",
+                                "rep": "identity", "N": n, "lo": lo, "hi": hi, "signed": 1})
+    for n in (2, 3, 5):
+        for payoff in ("s", "v2"):
+            for cv in ("none", "1a"):
+                lo, hi = (0, 3 ** n) if (n < 5 or thorough) else (54, 81)
+                out.append({"sub": "sweep", "payoff": payoff, "cv": cv, "notional": 2.5, "df": 0.9, "spot": 1, "alphabet": "N3",
+                            "rep": "identity", "N": n, "lo": lo, "hi": hi})
     return out
 
 
@@ -381,6 +477,12 @@ def _forms_cases(thorough):
                 c = {"sub": "pool" if procs != 1 else "sweep", "payoff": "v2", "cv": cv, "notional": 2.5, "df": 0.9, "spot": 1,
                      "alphabet": "A4", "script": 1, "rep": "identity", "N": n, "lo": 0, "hi": 1}
                 out.append(dict(c, procs=procs) if procs != 1 else c)
+    # beyond the row-count thresholds visible in the statistics helpers (blocks of 65536 / 32768 rows): 65536 + k paths,
+    # single process, cheap payoffs; one run each (the determinism re-run is skipped for these)
+    for n in LONG_SCRIPT_NS + (LONG_SCRIPT_NS_THOROUGH if thorough else ()):
+        for payoff, cv in (("v2", "2a"), ("s", "none")):
+            out.append({"sub": "sweep", "payoff": payoff, "cv": cv, "notional": 2.5, "df": 0.9, "spot": 1, "alphabet": "A4", "script": 1,
+                        "rep": "identity", "N": n, "lo": 0, "hi": 1})
     return out
 
 
@@ -454,6 +556,20 @@ def _history_cases(thorough):
             for pa, pb in itertools.permutations(("s", "ls", "m"), 2):
                 a, b = ({"payoff": q, "cv": cvk, "spot": 1, "notional": 2.5, "df": 0.9} for q in (pa, pb))
                 out.append(case("config", rep, (a, b), ("plain",), list(itertools.product(HIST_NS, repeat=2)), 2 if thorough else 0, "none"))
+    # (f) ragged time grids on ONE engine: every pricing runs a fixed ragged script (the k-th pricing starts the cycle of grids
+    #     at position k, so path i of two successive pricings has different dates), path-dependent payoffs, deterministic part
+    #     x0 + drift t; same configuration re-priced, and the payoff changed between the pricings
+    rag = lambda p, cvk, sp: {"payoff": p, "cv": cvk, "spot": sp, "notional": 2.5, "df": 0.9, "det": list(U.RAGGED_DET), "paths": "ragged"}  # noqa: E731
+    rag_payoffs = ("as", "av2", "b-uo", "b-di") + (("b-ui", "b-do", "s") if thorough else ())
+    pairs = list(itertools.product(HIST_NS, repeat=2))
+    for p in rag_payoffs:
+        for cvk in ("none", "1a"):
+            for sp in (0, 1):
+                for rep, ops in (("identity", HIST_OPS + (HIST_OPS_COPIES if thorough else ("dill",))), ("log", ("plain",))):
+                    for op in ops:
+                        out.append(case("ragged", rep, (rag(p, cvk, sp),) * 2, (op,), pairs, 0, "none"))
+    for pa, pb in itertools.permutations(("as", "b-uo", "s"), 2):
+        out.append(case("ragged", "identity", (rag(pa, "1a", 1), rag(pb, "1a", 1)), ("plain",), pairs, 0, "none"))
     return out
 
 
@@ -471,6 +587,12 @@ def _stats_array(st, name):
     return None if arr is None else np.array(arr, dtype=float)  # a copy: a later pricing must not change what was read
 
 
+def _tl(a, cap=64):
+    """rows of an array as lists, for the detail of a violation; only the first rows of a long sample"""
+    a = np.asarray(a)
+    return a.tolist() if a.ndim == 0 or a.shape[0] <= cap else a[:cap].tolist() + [f"... ({a.shape[0]} rows)"]
+
+
 def _dimk(d):
     return f"dim{d}"
 
@@ -478,6 +600,13 @@ def _dimk(d):
 def _cls_letters(letters):
     k = len(set(letters))
     return "constant-sample" if k == 1 else f"{k}-letter-sample"
+
+
+def _rows_label(n):
+    """Input class of a long script: how the number of paths relates to the 65536-row blocks of the statistics helpers."""
+    if n <= 65536:
+        return "at-most-65536-paths"
+    return "more-than-65536-paths:" + ("multiple-of-65536" if n % 65536 == 0 else "not-a-multiple-of-65536")
 
 
 def _pool_label(procs, n):
@@ -570,6 +699,21 @@ def _read_result(st):
         out["price"] = _vec(st.price())
         out["raw_se"] = _vec(st.mc_stddev(no_control_variates=True))
         out["se"] = _vec(st.mc_stddev())
+        # second public routes to the same figures: get_mean(), and the flag given positionally; a route the tree does not
+        # offer (no such method, flag keyword-only) is not read
+        routes = {}
+        gm = getattr(st, "get_mean", None)
+        for name, call in (("price(True)", lambda: st.price(True)), ("mc_stddev(True)", lambda: st.mc_stddev(True)),
+                           ("price(False)", lambda: st.price(False)), ("mc_stddev(False)", lambda: st.mc_stddev(False)),
+                           ("get_mean()", (lambda: gm()) if callable(gm) else None),
+                           ("get_mean(no_control_variates=True)", (lambda: gm(no_control_variates=True)) if callable(gm) else None)):
+            if call is None:
+                continue
+            try:
+                routes[name] = _vec(call())
+            except TypeError:
+                pass
+        out["routes"] = routes
     out["Y"] = _stats_array(st, "_payoff_statistics")
     out["X"] = _stats_array(st, "_control_variates_statistics")
     out["A"] = _stats_array(st, "_payoff_statistics_with_cv")
@@ -619,7 +763,10 @@ def check_run(sh, case, letters, obs):
         letters = _pool_order(sh, case, letters, obs)
         sh.cls(_pool_label(procs, n))
     S, Y, X = U.reference_rows(case, letters)
-    detail0 = {"letters": list(letters), "config": {k: case[k] for k in ("payoff", "cv", "notional", "df", "spot", "rep", "alphabet")}}
+    detail0 = {"letters": list(letters) if n <= 64 else list(letters[:64]) + [f"... ({n} paths)"],
+               "config": {k: case[k] for k in ("payoff", "cv", "notional", "df", "spot", "rep", "alphabet")}}
+    if case.get("det"):
+        detail0["config"]["deterministic_part_x0_drift"] = list(case["det"])
     if procs != 1:
         detail0["config"]["nb_of_processes"] = procs or None
         detail0["pool"] = obs.get("pool_log")
@@ -649,7 +796,12 @@ def check_run(sh, case, letters, obs):
         sh.violation(f"C07:calls:simulate_one_path:count-differs-from-configured-paths{hlab}",
                      f"{obs['calls']} paths were simulated for mc_paths={n}", detail0)
 
-    scale = max(nt * df, max((abs(v) for row in Y for v in row), default=0.0))
+    scale = max(abs(nt) * df, max((abs(v) for row in Y for v in row), default=0.0))
+
+    def se_close(a, b):
+        """standard errors: 1e-9 of the sample's scale, and 1e-7 of the standard error itself when that is smaller (a two-pass
+        standard deviation is accurate to eps * |mean| / std relative, a one-pass one to eps * (mean / std)^2)"""
+        return bool(abs(a - b) <= min(1e-9 * scale, 1e-7 * abs(b)) + 1e-12 * scale)
 
     # ---- rows
     Yl = obs["Y"]
@@ -675,7 +827,7 @@ def check_run(sh, case, letters, obs):
                 kind = "notional-missing"
             sh.violation(f"C07:rows:payoff:row-differs-from-path-payoff:{kind}:{dimk}",
                          f"stored payoff row {i} component {c} = {Yl[i, c]!r}, but df*notional*payoff(path {i}) = {Yr[i, c]!r}",
-                         dict(detail0, stored=Yl.tolist(), reference=Yr.tolist()))
+                         dict(detail0, stored=_tl(Yl), reference=_tl(Yr)))
     Xl = obs["X"]
     if ncv and Xl is not None:
         Xr = np.array(X, dtype=float).reshape(n, ncv, d)
@@ -686,7 +838,7 @@ def check_run(sh, case, letters, obs):
             bad = [int(v) for v in np.argwhere(~(np.abs(Xl - Xr) <= 1e-12 * np.abs(Xr) + 1e-14 * np.max(np.abs(Xr), axis=(0, 2), keepdims=True)))[0]]
             sh.violation(f"C07:rows:control:row-differs-from-path-payoff:{cvlab}:{dimk}",
                          f"stored control row {bad[0]} control {bad[1]} component {bad[2]} = {Xl[tuple(bad)]!r}, reference {Xr[tuple(bad)]!r}",
-                         dict(detail0, stored=Xl.tolist(), reference=Xr.tolist()))
+                         dict(detail0, stored=_tl(Xl), reference=_tl(Xr)))
     if case["spot"]:
         Sl = obs["spot"]
         if Sl is None:
@@ -698,9 +850,17 @@ def check_run(sh, case, letters, obs):
             elif not np.allclose(Sl, Sr, rtol=1e-12, atol=0.0):
                 i = int(np.argwhere(~np.isclose(Sl, Sr, rtol=1e-12, atol=0.0))[0][0])
                 sh.violation(f"C07:rows:spot:row-differs-from-terminal-spot:{case.get('rep', 'identity')}{hlab}",
-                             f"spot row {i} = {Sl[i, 0]!r}, terminal spot of path {i} = {Sr[i, 0]!r}", dict(detail0, stored=Sl.ravel().tolist()))
+                             f"spot row {i} = {Sl[i, 0]!r}, terminal spot of path {i} = {Sr[i, 0]!r}", dict(detail0, stored=_tl(Sl.ravel())))
     elif obs["spot"] is not None:
         sh.count("spot_rows_present_though_not_activated")
+
+    # ---- second public routes to the same figures (same computation: equal up to an ulp)
+    for route, vals in (obs.get("routes") or {}).items():
+        usual = obs[("raw_" if "True" in route else "") + ("price" if "mc_stddev" not in route else "se")]
+        sh.count("second_routes")
+        if len(vals) != len(usual) or not all(core.close(a, b, rtol=1e-14, atol=0.0) or (a != a and b != b) for a, b in zip(vals, usual)):
+            sh.violation(f"C07:routes:{route}:differs-from-the-keyword-form:{dimk}",
+                         f"{route} = {vals} but the usual call gives {usual}", detail0)
 
     # ---- raw price and error, per component
     cols = [[Y[i][c] for i in range(n)] for c in range(d)]
@@ -722,10 +882,10 @@ def check_run(sh, case, letters, obs):
     if n >= 2:
         se_ref = [U.fstd_err(col) for col in cols]
         lib = obs["raw_se"]
-        if not all(core.close(lib[c], se_ref[c], rtol=1e-9, atol=1e-12 * scale, scale=scale) for c in range(d)):
-            if d > 1 and all(core.close(lib[c] * math.sqrt(d), se_ref[c], rtol=1e-9, atol=1e-12 * scale, scale=scale) for c in range(d)):
+        if not all(se_close(lib[c], se_ref[c]) for c in range(d)):
+            if d > 1 and all(se_close(lib[c] * math.sqrt(d), se_ref[c]) for c in range(d)):
                 kind = "divided-by-sqrt-of-N-times-dimension"
-            elif all(core.close(lib[c] * math.sqrt(n / (n - 1.0)), se_ref[c], rtol=1e-9, atol=1e-12 * scale, scale=scale) for c in range(d)):
+            elif all(se_close(lib[c] * math.sqrt(n / (n - 1.0)), se_ref[c]) for c in range(d)):
                 kind = "biased-standard-deviation"
             else:
                 kind = "value"
@@ -820,10 +980,10 @@ def check_run(sh, case, letters, obs):
                     else:
                         kind = "controls-dropped"
                 what = (f"price()[{c}] = {obs['price'][c]!r} but mean of Y - b*(X - price_X) = {price_ref!r}" if not price_ok else
-                        f"adjusted rows of component {c} = {a_lib.tolist()} but Y - b*(X - price_X) = {a_ref.tolist()}")
+                        f"adjusted rows of component {c} = {_tl(a_lib)} but Y - b*(X - price_X) = {_tl(a_ref)}")
                 sh.violation(f"C07:cv:adjustment:not-the-regression-adjustment:{kind}:{cvlab}:{dimk}",
                              what + f" with b* = {b_ref.tolist()} (raw mean {mean_ref[c]!r}, given prices {p.tolist()}, control means {xm.tolist()})",
-                             dict(det, adjusted_rows_library=None if a_lib is None else a_lib.tolist(), adjusted_rows_reference=a_ref.tolist()))
+                             dict(det, adjusted_rows_library=None if a_lib is None else _tl(a_lib), adjusted_rows_reference=_tl(a_ref)))
             elif n >= 2:
                 # the error only when price and rows agree (one key per defect)
                 se_ref = U.fstd_err(list(a_ref))
@@ -850,7 +1010,7 @@ def check_run(sh, case, letters, obs):
                     ok_form = bool(np.max(np.abs(res)) <= 1e-9 * sc)
                 if not ok_form:
                     sh.violation(f"C07:cv:rows:adjusted-rows-not-a-control-variate-adjustment:rank-deficient-controls:{cvlab}:{dimk}",
-                                 f"adjusted rows of component {c} = {a_lib.tolist()} are not Y - b(X - price_X) for any b", det)
+                                 f"adjusted rows of component {c} = {_tl(a_lib)} are not Y - b(X - price_X) for any b", det)
                 # price and error are the mean / standard error of those rows
                 if ok_form and not core.close(obs["price"][c], U.fmean(list(a_lib)), rtol=1e-9, atol=1e-12 * sc, scale=sc):
                     sh.violation(f"C07:cv:price:not-the-mean-of-the-adjusted-rows:rank-deficient-controls:{cvlab}:{dimk}",
@@ -877,7 +1037,7 @@ def check_run(sh, case, letters, obs):
             if not (var_adj <= var_raw + slack):
                 sh.violation(f"C07:cv:variance:adjusted-sample-variance-exceeds-raw:{cond}:{cvlab}:{dimk}",
                              f"component {c}: sample variance of the adjusted payoff {var_adj!r} > raw {var_raw!r}",
-                             dict(det, adjusted_rows=None if a_lib is None else a_lib.tolist()))
+                             dict(det, adjusted_rows=None if a_lib is None else _tl(a_lib)))
         if mean_hit and main_ok:
             sh.count("control_mean_equals_given_price")
             tol = 1e-9 * max(sc, scale)
@@ -893,19 +1053,27 @@ def check_run(sh, case, letters, obs):
 
 def _pricings(case):
     """The successive pricings of one sequence: list of per-pricing case dicts (representation + key labels)."""
+    ragged = ":ragged-grids" if case.get("det") else ""  # every path on its own time grid, deterministic part x0 + drift t
     if case["sub"] == "pool":
         lab = _pool_label(case["procs"], case["N"]) + (":real-pool" if case.get("realpool") else "")
-        dim = f"dim1:{case['payoff']}" if case["payoff"] in U.BARRIER_KINDS else _dimk(U.payoff_dim(case["payoff"]))
+        dim = (f"{_dimk(U.payoff_dim(case['payoff']))}:{case['payoff']}" if case["payoff"] in U.PATH_KINDS else _dimk(U.payoff_dim(case["payoff"]))) + ragged
         opts = [k for k in ("seed", "vr", "nodensity") if case.get(k)] + list(case.get("forms", ()))
         return [dict(case, dimlab=f"{dim}:{case['rep']}:{lab}" + (f":options-{'+'.join(opts)}" if opts else ""), hlab=f":{lab}")]
     if case["sub"] != "mixed":
-        if case["payoff"] in U.BARRIER_KINDS:  # narrower input class in the keys of the path-dependent payoffs
-            return [dict(case, dimlab=f"dim1:{case['payoff']}:{case['rep']}:spot-statistics-{'on' if case['spot'] else 'off'}")]
+        if case["payoff"] in U.PATH_KINDS or ragged:  # narrower input class in the keys of the path-dependent payoffs
+            return [dict(case, dimlab=f"{_dimk(U.payoff_dim(case['payoff']))}:{case['payoff']}:{case['rep']}{ragged}:spot-statistics-{'on' if case['spot'] else 'off'}")]
         opts = [k for k in ("seed", "vr", "nodensity") if case.get(k)]
         if opts:
             return [dict(case, dimlab=f"{_dimk(U.payoff_dim(case['payoff']))}:options-{'+'.join(opts)}")]
         if case.get("forms"):
             return [dict(case, dimlab=f"{_dimk(U.payoff_dim(case['payoff']))}:{case['payoff']}:forms-{'+'.join(case['forms'])}")]
+        if case["N"] > 4096:
+            return [dict(case, dimlab=f"{_dimk(U.payoff_dim(case['payoff']))}:{_rows_label(case['N'])}")]
+        if case.get("signed"):
+            sign = ("negative-notional" if case["notional"] < 0 else "positive-notional") + (":df-above-1" if case["df"] > 1 else "")
+            return [dict(case, dimlab=f"{_dimk(U.payoff_dim(case['payoff']))}:{case['payoff']}:{sign}")]
+        if case["alphabet"] == "N3":
+            return [dict(case, dimlab=f"{_dimk(U.payoff_dim(case['payoff']))}:narrow-sample-around-a-large-mean")]
         return [case]
     out = []
     reps = case["reps"]
@@ -929,6 +1097,11 @@ def run_sequence(case, letters):
 # ----------------------------------------------------------------------------------------------------------------------
 
 HIST_FIELDS = ("payoff", "cv", "spot", "notional", "df", "procs")
+
+
+def _hist_script(stp, k, n, reverse=False):
+    """fixed script of the k-th pricing of a history: A4 cycled, or a ragged script when the step says so"""
+    return U.ragged_script(k, n, reverse) if stp.get("paths") == "ragged" else U.script_letters(k, n, reverse)
 
 
 def _result_fingerprint(r):
@@ -977,6 +1150,8 @@ def run_history(case, ns, idx):
         opt = {"seed": 7, "vr": 1} if rep == "log" else {}  # the log histories also carry the rarely used options
         if stp.get("procs", 1) != 1:  # the pool branch: number of workers and how the number of paths relates to it
             pos = f"{pos}:{_pool_label(stp['procs'], stp['N'])}"
+        if stp.get("paths") == "ragged":  # narrower input class: payoff kind, ragged grids
+            pos = f"{pos}:{stp['payoff']}:ragged-grids"
         return dict(stp, sub="history", rep=rep, alphabet="A3/A4-script", dimlab=f"{_dimk(d)}:history:{rep}:{pos}", hlab=f":history:{pos}", **opt)
 
     def after(sc, letters, obs):
@@ -994,7 +1169,7 @@ def run_history(case, ns, idx):
 
     for k, stp in enumerate(steps):
         op = stp["op"]
-        letters = U.script_letters(k, stp["N"])
+        letters = _hist_script(stp, k, stp["N"])
         if k == last and idx >= 0:
             letters = [U.ALPHABETS["A3"][j] for j in U.decode(idx, stp["N"], 3)]
         prev = steps[k - 1] if k else None
@@ -1004,7 +1179,7 @@ def run_history(case, ns, idx):
             eng, _, _ = U.build_engine(sc, letters, (product, cv))
         else:
             if op in ("other", "fork"):
-                side_letters = U.script_letters(k, U.SIDE_N, reverse=True)
+                side_letters = _hist_script(stp if op == "other" else prev, k, U.SIDE_N, reverse=True)
                 if op == "other":  # a second, completely separate engine of the same classes is priced in between
                     side = label_case(dict(stp, N=U.SIDE_N), "side-engine-other")
                     e2, _, prod2 = U.build_engine(side, side_letters, None)
@@ -1085,7 +1260,11 @@ def check_case(sh, case):
     for idx in range(case["lo"], case["hi"]):
         seq = U.decode(idx, n, len(letters_all))
         letters = [letters_all[k] for k in seq]
-        if case.get("script"):  # a fixed script instead of an enumerated sequence (larger numbers of paths)
+        if case.get("script") == "ragged":  # a fixed ragged script: every path on its own time grid
+            letters = U.ragged_script(0, n)
+        elif case.get("script") and n > 4096:  # long fixed script (beyond the row-count thresholds of the statistics helpers)
+            letters = U.long_script(n)
+        elif case.get("script"):  # a fixed script instead of an enumerated sequence (larger numbers of paths)
             letters = U.script_letters(0, n)
         elif "constant" in case:  # the same path n times (the real pool: the workers cannot share the script's position)
             letters = [letters_all[case["constant"]]] * n
@@ -1097,7 +1276,7 @@ def check_case(sh, case):
                 sh.cls(f"mixed:{U.PAYOFF_UNDERLYING[case['payoff']]}-product:{c['rep']}:{'first' if c['dimlab'].endswith('first-pricing') else 'second'}-pricing")
         if len(set(letters)) > 1:
             nontrivial = True
-        if idx == case["lo"]:
+        if idx == case["lo"] and n <= 4096:
             # determinism self-check: same case on fresh objects gives the same complete observation, bit for bit
             again = run_sequence(case, letters)
             if [_obs_fingerprint(o) for _, o in again] != [_obs_fingerprint(o) for _, o in runs]:
